@@ -204,6 +204,7 @@ def execFn (name : String) (fields : List String) : M Unit := do
     if boolTok (specEq b a) != ba then fail s!"SPEC C07: b.Equals(a) = {ba}, typed structural equality says {specEq b a}"
     if boolTok (equalsJ a b) != ab then fail s!"equals: model {equalsJ a b} observed {ab}"
     if boolTok (equalsJ b a) != ba then fail s!"equals: model {equalsJ b a} observed {ba}"
+  | "alarm", [prop, msg] => fail s!"SPEC {prop}: {msg}"
   | _, _ => fail s!"protocol: unknown fn {name} with {fields.length} fields"
 
 end Anytype.Driver
